@@ -93,6 +93,7 @@ LAYERS = [
     ]),
     ("AcmeHttp (C08)", "C08_tv_tv", "C08", [
         ("a recoverable error not followed by a retransmission (the retry dropped)", lambda ls: (lambda i: None if i is None else ls[:i + 1] + [e for e in ls[i + 1:first(ls, lambda x: x["e"] in ("PostBegin", "AttemptOver"), i + 1) or len(ls)] if e["e"] not in ("HttpPost", "CaPost", "NonceSet", "HttpOk", "HttpErr", "CaGet")] + ls[first(ls, lambda x: x["e"] in ("PostBegin", "AttemptOver"), i + 1) or len(ls):])(first(ls, lambda e: e["e"] == "HttpErr" and e.get("recov"))), "C08_RetriesRecoverable"),
+        ("a call that ended in a fatal answer followed by more requests of the same caller (an HttpOk turned into an error of type unauthorized)", lambda ls: (lambda i: None if i is None else ls[:i] + [{"e": "HttpErr", "type": "unauthorized", "recov": False}] + ls[i + 1:])(first(ls, lambda e: e["e"] == "HttpOk")), "C08_FailureEndsAttempt"),
         ("an 11th transmission: one HttpPost of a long run duplicated ten times", lambda ls: (lambda i: None if i is None else ls[:i] + [copy.deepcopy(ls[i]) for _ in range(11)] + ls[i + 1:])(first(ls, lambda e: e["e"] == "HttpPost")), "C08_"),
     ]),
     ("AcmeFlow", "C03_tv_tv", "C03", [
@@ -124,7 +125,11 @@ LAYERS = [
     ("RateLimit", "C09_tv", "C09", [
         ("every admission of a burst moved to the same instant", lambda ls: (lambda i: None if i is None else [dict(e, t=ls[i]["t"]) if (j >= i and e["e"] == "Admit" and j < i + 12) else e for j, e in enumerate(ls)])(first(ls, lambda e: e["e"] == "Admit" and e["t"] > 0)), "C09_Window"),
     ]),
+    ("RateLimit (daemon)", "C09_tv", "C09", [
+        ("a request that left without a fresh admission (the admission before a Send dropped)", lambda ls: (lambda i: None if i is None else ls[:i - 1] + ls[i:] if ls[i - 1]["e"] == "Admit" else None)(first(ls, lambda e: e["e"] == "Send")), "C09_SentWhenAdmitted"),
+    ]),
     ("Hooks", "C10_tv", "C10", [
+        ("the template variable env showing another value than the process environment", edit(lambda e: e["e"] == "End" and e.get("envs"), setk(["envs"], lambda v: [dict(v[0], tvalue="elsewhere")] + v[1:])), "C10_Env"),
         ("two hook runs of one call exchanged", swap_hook_ends, "C10_"),
         ("a second hook started before the first ended", lambda ls: (lambda i: None if i is None else ls[:i + 1] + [copy.deepcopy(ls[i])] + ls[i + 1:])(first(ls, lambda e: e["e"] == "Start")), "C10_OneAtATime"),
         ("the clean call of a validated challenge dropped (with its hook runs)", lambda ls: (lambda i: None if i is None else ls[:i] + ls[(first(ls, lambda x: x["e"] in ("Call", "EndRun", "Write"), i + 1) or len(ls)):])(first(ls, lambda e: e["e"] == "Call" and e["type"].endswith("-clean"))), "C10_CleanAfterValidation"),
@@ -140,6 +145,7 @@ LAYERS = [
         ("a newAccount request duplicated", dup(lambda e: e["e"] == "CaNewAccount" and e.get("created")), "C11_CreateOnlyWhen"),
         ("the key reloaded after a restart differs from the one saved", lambda ls: (lambda i: None if i is None else (ls[i]["img"].__setitem__("cur", "x" * 43), ls)[1])(first(ls, lambda e: e["e"] == "Loaded" and e["img"]["ep"]["A"]["url"] != "none")), "C11_Durable"),
         ("a second contacts update in one renewal", dup(lambda e: e["e"] == "CaUpdate"), "C11_OneUpdatePerItem"),
+        ("a renewal ending with a current key of another type than configured", edit(lambda e: e["e"] == "RenewEnd" and e.get("ok"), setk(["ktc"], "rsa4096x")), "C11_InStepAfterRenew"),
     ]),
     ("Locks", "C12_tv", "C12", [
         ("an ACME request made without the endpoint lock (acquisition dropped)", drop(lambda e: e["e"] == "LockAcq" and e["lock"][0] == "endpoint" and e["mode"] == "w"), "C12_"),
